@@ -9,6 +9,7 @@
 #define VERIF_CONTRACT_READ_H
 #include <stddef.h>
 #include <stdint.h>
+extern size_t g_m;
 #define PKT_OFF(p) ((long)__CPROVER_POINTER_OFFSET(p))
 #define IN_PKT(p, packet, packetlen) (__CPROVER_same_object(p, packet) && PKT_OFF(p) >= 0 && PKT_OFF(p) <= (long)(packetlen))
 
@@ -28,5 +29,50 @@ __CPROVER_requires(RN_PRE(packet, packetlen, *src, length, 10))
 __CPROVER_requires(__CPROVER_is_fresh(dst, length))
 __CPROVER_assigns(*src, __CPROVER_object_upto(dst, length))
 __CPROVER_ensures(RN_POST(__CPROVER_return_value, packet, packetlen, *src, __CPROVER_old(PKT_OFF(*src)), length))
+;
+
+/* fixed-width readers/writers: footprint = exactly the bytes of the field */
+int readshort(char *packet, char **src, unsigned short *dst)
+__CPROVER_requires(__CPROVER_is_fresh(src, sizeof(char *)) && __CPROVER_is_fresh(*src, 2) && __CPROVER_is_fresh(dst, sizeof(unsigned short)))
+__CPROVER_assigns(*src, *dst)
+__CPROVER_ensures(*src == __CPROVER_old(*src) + 2 && __CPROVER_return_value == 2)
+__CPROVER_ensures(*dst == (unsigned short)((((unsigned char *)__CPROVER_old(*src))[0] << 8) | ((unsigned char *)__CPROVER_old(*src))[1]))
+;
+int readlong(char *packet, char **src, uint32_t *dst)
+__CPROVER_requires(__CPROVER_is_fresh(src, sizeof(char *)) && __CPROVER_is_fresh(*src, 4) && __CPROVER_is_fresh(dst, sizeof(uint32_t)))
+__CPROVER_assigns(*src, *dst)
+__CPROVER_ensures(*src == __CPROVER_old(*src) + 4 && __CPROVER_return_value == 4)
+__CPROVER_ensures(*dst == (((uint32_t)((unsigned char *)__CPROVER_old(*src))[0] << 24) | ((uint32_t)((unsigned char *)__CPROVER_old(*src))[1] << 16) |
+	((uint32_t)((unsigned char *)__CPROVER_old(*src))[2] << 8) | (uint32_t)((unsigned char *)__CPROVER_old(*src))[3]))
+;
+int readdata(char *packet, char **src, char *dst, size_t len)
+__CPROVER_requires(len <= 65536 && __CPROVER_is_fresh(src, sizeof(char *)) && __CPROVER_is_fresh(*src, len) && __CPROVER_is_fresh(dst, len))
+__CPROVER_assigns(*src, __CPROVER_object_upto(dst, len))
+__CPROVER_ensures(*src == __CPROVER_old(*src) + len && (size_t)__CPROVER_return_value == len)
+__CPROVER_ensures(g_m < len ==> dst[g_m] == __CPROVER_old(*src)[g_m])
+;
+int putbyte(char **dst, unsigned char value)
+__CPROVER_requires(__CPROVER_is_fresh(dst, sizeof(char *)) && __CPROVER_is_fresh(*dst, 1))
+__CPROVER_assigns(*dst, __CPROVER_object_upto(*dst, 1))
+__CPROVER_ensures(*dst == __CPROVER_old(*dst) + 1 && __CPROVER_return_value == 1 && (unsigned char)__CPROVER_old(*dst)[0] == value)
+;
+int putshort(char **dst, unsigned short value)
+__CPROVER_requires(__CPROVER_is_fresh(dst, sizeof(char *)) && __CPROVER_is_fresh(*dst, 2))
+__CPROVER_assigns(*dst, __CPROVER_object_upto(*dst, 2))
+__CPROVER_ensures(*dst == __CPROVER_old(*dst) + 2 && __CPROVER_return_value == 2)
+__CPROVER_ensures((unsigned char)__CPROVER_old(*dst)[0] == (value >> 8) && (unsigned char)__CPROVER_old(*dst)[1] == (value & 0xff))
+;
+int putlong(char **dst, uint32_t value)
+__CPROVER_requires(__CPROVER_is_fresh(dst, sizeof(char *)) && __CPROVER_is_fresh(*dst, 4))
+__CPROVER_assigns(*dst, __CPROVER_object_upto(*dst, 4))
+__CPROVER_ensures(*dst == __CPROVER_old(*dst) + 4 && __CPROVER_return_value == 4)
+__CPROVER_ensures((unsigned char)__CPROVER_old(*dst)[0] == (value >> 24) && (unsigned char)__CPROVER_old(*dst)[1] == ((value >> 16) & 0xff) &&
+	(unsigned char)__CPROVER_old(*dst)[2] == ((value >> 8) & 0xff) && (unsigned char)__CPROVER_old(*dst)[3] == (value & 0xff))
+;
+int putdata(char **dst, const char *data, size_t len)
+__CPROVER_requires(len <= 65536 && __CPROVER_is_fresh(dst, sizeof(char *)) && __CPROVER_is_fresh(*dst, len) && __CPROVER_is_fresh(data, len))
+__CPROVER_assigns(*dst, __CPROVER_object_upto(*dst, len))
+__CPROVER_ensures(*dst == __CPROVER_old(*dst) + len && (size_t)__CPROVER_return_value == len)
+//PD __CPROVER_ensures(g_m < len ==> __CPROVER_old(*dst)[g_m] == data[g_m])
 ;
 #endif
